@@ -171,6 +171,7 @@ func (w *wal) close() error {
 }
 
 func (w *wal) read() (WALBatch, error) {
+	w.reader = verifWalWrap(w.reader)
 	var ret WALBatch
 	reader := bufio.NewReader(w.reader)
 	tupleLenBuf := make([]byte, 4)
@@ -227,6 +228,7 @@ func (w *wal) truncate(size int64) error {
 }
 
 func (w *wal) flush(batch WALBatch) error {
+	w.reader = verifWalWrap(w.reader)
 	tupleLenBuf := make([]byte, 4)
 
 	for _, tuple := range batch {
